@@ -25,6 +25,7 @@ def monitor_ap(chk, case, obs):
     listed = set()
     current = {}          # peer -> connection index currently registered
     conn_peer = {}
+    added = []
     m0 = re.search(r"\| (.*)$", case)
     for o in obs:
         m = re.match(r"(.+?)=(.*?);ev=(.*?);cl=(.*?);L=\[(.*?)\](DUP)?$", o)
@@ -53,6 +54,14 @@ def monitor_ap(chk, case, obs):
             chk.monitor_fail("snapshot + events (%s) differs from the listing (%s) after %s" % (sorted(listed), L, op), dict(case=case, obs=o))
             return
         closed = set(c for c in cl.split(",") if c)
+        if op.startswith("A"):
+            added.append(op[1:])
+        # at most one live connection per identity: every connection handed to the set is either the one its peer
+        # is listed through or has been closed by this side
+        for c in added:
+            if c not in closed and c not in [e[1] for e in entries]:
+                chk.monitor_fail("connection %s is neither the registered connection of its peer nor closed after %s: a second live connection to one identity (listing %s, closed %s)" % (c, op, L, cl or "none"), dict(case=case, obs=o))
+                return
         for p, c in entries:
             if c in closed:
                 chk.monitor_fail("peer %s is listed through connection %s which this side has closed (after %s)" % (p, c, op), dict(case=case, obs=o))
